@@ -28,7 +28,9 @@ CLAUSE = {1: "result_returned", 2: "class_changed", 3: "message_lost", 4: "ident
 TRUSTED = [
     "translator/c09.py (for the 41 functions on the paths from the entry points to a model call: every except handler, "
     "finally block and with item as a shape; which functions refer to which; the list of context managers taken as "
-    "non-suppressing: standard library, numpy, dask, tqdm, xarray)",
+    "non-suppressing: standard library, numpy, dask, tqdm, xarray; its normalisations: helper calls followed to depth 3, "
+    "names bound once and imported names replaced by what they are bound to, constructs inside handler / finally bodies "
+    "judged through that handler / finally block, helpers that name no function of the paths left out)",
     "the paths themselves (Model/Failure.v all_entry_paths: entry point x mode -> functions) are hand-written from the "
     "source; the translator checks that every function exists and refers to the next one; calls that go through pygmo/dask "
     "(lib_edges) are taken on trust",
